@@ -10,6 +10,9 @@ extra injections with other RNG seeds on faithful copies of the program):
       (for a type variable: of its bound) and not assignable either way under
       the target language's conversions
   (c) error_injected names the old type, the new type and the node
+  (d) the reference checker (inference mode) finds a definite type error that the program did not
+      have before the injection; silent + every position judged (Kotlin, Scala) = violation,
+      silent with unjudged positions = unjudged (counted)
   (e) Java: javac rejects the translation (compiled alone)
  when nothing was injected:
   (f) value and translation of the program are unchanged."""
@@ -19,6 +22,7 @@ import re
 
 from vf import digest as dg, common, javac, irwalk, terms
 
+D_RULES = {'INIT', 'ARG', 'RET', 'COND', 'ASSIGN', 'ELEM', 'DEFAULT', 'TARG', 'OVERRIDE', 'INFER'}
 NUM = ['ByteType', 'ShortType', 'IntegerType', 'LongType', 'FloatType', 'DoubleType']
 NUMERIC = set(NUM) | {'CharType', 'NumberType', 'BigDecimalType', 'BigIntegerType'}
 
@@ -117,7 +121,13 @@ class Monitor:
                 H.TRANSLATORS[self.case.lang]('src.vfpkg', H.cli_args.options['Translator']), program)
         except Exception:
             pass
-        return {'snap': dg.snapshot(program), 'inv': slots_inventory(program), 'text': text}
+        findings = None
+        try:
+            from vf import refcheck
+            findings = {(f['rule'], f['msg']) for f in refcheck.Checker(program, self.case.lang, infer=True).run().findings}
+        except RecursionError:
+            pass
+        return {'snap': dg.snapshot(program), 'inv': slots_inventory(program), 'text': text, 'findings': findings}
 
     def after_transform(self, kind, k, program, transformer, res):
         if kind != 'overwrite' or self.state is None or transformer is None:
@@ -299,6 +309,12 @@ class Monitor:
                                'old_is_variable': old[0] == 'v', 'old_is_primitive': bool(old_prim)},
                               'the replacement %s is related to the replaced %s (%s, %s)' % (
                                   terms.term_str(new), terms.term_str(old), rel[0], rel[1]), w, shape)
+        # (d) a correct type checker must reject: the reference checker (inference mode: annotations an
+        # earlier erasure removed are re-inferred) must find a definite error that the program did not
+        # have before the injection
+        dverdict = self._clause_d(program, st, kind, node, old, new, rel, w, shape)
+        if dverdict == 'violation':
+            bad = True
         if not bad:
             out.ok(shape, nontrivial=True)
         if len(out.samples) < 3:
@@ -309,6 +325,39 @@ class Monitor:
                 'node_cls': type(node).__name__,
                 'diamond': bool(getattr(getattr(node, 'class_type', None), 'can_infer_type_args', False)),
                 'uid': 'f%05d' % len(self.java_files)}
+
+    def _clause_d(self, program, st, kind, node, old, new, rel, w, shape):
+        from vf import refcheck
+        out = self.out
+        lang = self.case.lang
+        try:
+            ck = refcheck.Checker(program, lang, infer=True).run()
+        except RecursionError:
+            out.skip('d:checker-recursion')
+            return None
+        out.ev('d-checker-runs')
+        base = st.get('findings')
+        fresh = [f for f in ck.findings if f['rule'] in D_RULES and (base is None or (f['rule'], f['msg']) not in base)]
+        if fresh:
+            out.ev('d:checker-rejects')
+            out.ev('d:checker-rejects:' + fresh[0]['rule'])
+            return 'ok'
+        nun = sum(v for k, v in ck.unjudged.items() if k.split(':')[0] in D_RULES)
+        out.ev('d:checker-silent')
+        out.ev('d:checker-silent:%s' % kind)
+        if len(out.info.setdefault('d_silent', [])) < 12:
+            out.info['d_silent'].append({'case': self.case.ident(), 'kind': kind, 'old': terms.term_str(old),
+                                         'new': terms.term_str(new), 'node': str(w.get('node')),
+                                         'unjudged': nun, 'related': rel, 'origin': w.get('origin')})
+        if lang in ('kotlin', 'scala') and nun == 0 and not rel:
+            # every typed position of the mutated program was judged (no numeric leniency in these two
+            # languages) and none is a definite error: the mutant is well-typed for the reference checker
+            out.violation({'rule': 'd-checker-accepts-mutant', 'kind': kind, 'lang': lang},
+                          'no typed position of the overwritten program is an error (%s: %s -> %s); every position '
+                          'was judged' % (kind, terms.term_str(old), terms.term_str(new)), w, shape)
+            return 'violation'
+        out.skip('d:checker-silent-with-unjudged-positions')
+        return None
 
     def finish(self):
         out = self.out
@@ -390,11 +439,14 @@ def finish(agg, tier):
     agg.floor('b-relations-checked', 250 if q else 4000)
     agg.floor('messages-checked', 250 if q else 4000)
     agg.floor('javac-overwritten-runs', 25 if q else 1000)
+    agg.floor('d-checker-runs', 250 if q else 4000)
+    agg.floor('d:checker-rejects', 150 if q else 2400)
     return agg.finish(
         rule='judged = TypeOverwriting.transform() runs (the driver\'s injection on generated and erased programs; '
              'thorough: 7 more injections per program under other RNG seeds on faithful copies) + javac runs on the '
              'overwritten Java translations; distinct non-trivial = distinct (language, mutated-node kind, old type '
              'shape, new type shape) / rejected mutant texts',
-        assumptions=['"a correct type checker must reject" is decided by javac for Java only; for Kotlin, Groovy '
-                     'and Scala clauses (a), (b), (c), (f) are decided and (d) is not (no compiler installed)',
+        assumptions=['"a correct type checker must reject" is decided by javac for Java; for Kotlin, Groovy and Scala '
+                     'by the reference checker in inference mode (clause d): a definite error it finds confirms the '
+                     'injection, silence with unjudged positions is unjudged (no compiler is installed for them)',
                      'language assignability tables under-approximate the real conversions: a flagged pair is definitely related'])
